@@ -182,8 +182,21 @@ def run(ctx) -> None:
   loops = [n for n in g2.nodes if n.kind == 'test' and isinstance(getattr(n.ast, '_vz_parent', None), ast.While)
            and n.ast._vz_parent.test is n.ast]
   # the dictionary of values seen so far: keyed by pc.name inside the loop
+  # roles: `(parent, config) = worklist.pop(..)`; the config may be copied into further locals
+  pops = [n.ast for n in g2.nodes if n.kind == 'stmt' and isinstance(n.ast, ast.Assign) and isinstance(n.ast.targets[0], ast.Tuple)
+          and len(n.ast.targets[0].elts) == 2 and all(isinstance(x, ast.Name) for x in n.ast.targets[0].elts)
+          and isinstance(n.ast.value, ast.Call) and isinstance(n.ast.value.func, ast.Attribute) and n.ast.value.func.attr in ('pop', 'popleft')]
+  if len(pops) != 1:
+    raise AnalysisError(f'_trial_to_external_values: {len(pops)} work-list pops `(parent, config) = worklist.pop(..)` found')
+  PV, CV = pops[0].targets[0].elts[0].id, pops[0].targets[0].elts[1].id
+  cvs = {CV}
+  for _ in range(3):
+    for n in g2.nodes:
+      if n.kind == 'stmt' and isinstance(n.ast, ast.Assign) and isinstance(n.ast.value, ast.Name) and n.ast.value.id in cvs:
+        cvs |= {t.id for t in n.ast.targets if isinstance(t, ast.Name)}
   seen_dicts = {dotted(t.value) for n in g2.nodes if n.kind == 'stmt' and isinstance(n.ast, ast.Assign) for t in n.ast.targets
-                if isinstance(t, ast.Subscript) and unparse(t.slice, 0) == 'pc.name' and dotted(t.value) and dotted(t.value) != 'external_values'}
+                if isinstance(t, ast.Subscript) and unparse(t.slice, 0) in {f'{c}.name' for c in cvs} and dotted(t.value)
+                and dotted(t.value) != 'external_values'}
   bad_parent = bad_match = None
   n_paths = 0
   for e_ in emit:
@@ -196,17 +209,17 @@ def run(ctx) -> None:
       dec = pathcond.conditions(path)
 
       def parent_seen(a):
-        is_none = a.get(lambda k: k == 'parent_name is None')
+        is_none = a.get(lambda k: k == f'{PV} is None')
         if is_none is True:
           return True
-        return a.get(lambda k: k.startswith('parent_name in ') and k[len('parent_name in '):] in seen_dicts) is True
+        return a.get(lambda k: k.startswith(f'{PV} in ') and k[len(f'{PV} in '):] in seen_dicts) is True
 
       def parent_matches(a):
-        is_none = a.get(lambda k: k == 'parent_name is None')
+        is_none = a.get(lambda k: k == f'{PV} is None')
         if is_none is True:
           return True
-        return a.get(lambda k: k.endswith(' in pc.matching_parent_values') and '[parent_name]' in k
-                     and k.split('[parent_name]')[0] in seen_dicts) is True
+        return a.get(lambda k: any(k.endswith(f' in {c}.matching_parent_values') for c in cvs) and f'[{PV}]' in k
+                     and k.split(f'[{PV}]')[0] in seen_dicts) is True
       ok_p, cex_p = pathcond.implies(dec, parent_seen)
       ok_m, cex_m = pathcond.implies(dec, parent_matches)
       if not ok_p and bad_parent is None:
@@ -225,7 +238,7 @@ def run(ctx) -> None:
             'inactive children (parent value outside their matching values) are presented' +
             (f' (path with {bad_match[1]})' if bad_match else ''), construct='parent-match', func=te.qualname)
   okc = any(isinstance(c, ast.Call) and isinstance(c.func, ast.Attribute) and c.func.attr == 'cast'
-            and c.args and unparse(c.args[0], 0) == 'pc.external_type' for c in ast.walk(te.node))
+            and c.args and unparse(c.args[0], 0) in {f'{c_}.external_type' for c_ in cvs} for c in ast.walk(te.node))
   ctx.check(okc, 'R4', 'values cast with the parameter\'s external type', te.node, '.cast(pc.external_type)',
             'external values are not produced by ParameterValue.cast(pc.external_type)', construct='cast', func=te.qualname)
   # R5
